@@ -340,6 +340,9 @@ func init() {
 		explanation: "Decides structural necessary conditions of C04 for every function of mat: TWIN.sync — the receiver-sizing pairs reuseAsNonZeroed/reuseAsZeroed ('must be kept in sync') of six types differ only by use/useZeroed and the final Zero(); TWIN.bounds — the bounds and default element accessors check the same guards and address the same Data element on every access path; CONFIG — mat type-checks with one API under bounds/safe; STRIDE — every Data[...] index/slice and every (Data, Stride) pair handed to blas64/lapack64 uses the stride of the same matrix (views with Stride > Cols are addressed with their own stride everywhere). NILRECV — no call in mat passes a constant nil pointer to a function that dereferences it on every path (found and repaired: Cholesky.SymRankOne panicked for every Vector that is not a RawVectorer — a result depending on the operand's concrete type). Does not decide agreement of specialised dispatch arms with the generic At loop.",
 		assumptions: commonAssumptions,
 		run: func(tier string, res *core.Result) {
+			sg := matargs.RunSelfGuard(def)
+			sg.Floor("receiver_identity_tests", 30)
+			res.Merge(sg)
 			zr := zeroed.Run(def)
 			zr.Floor("return_paths", 16)
 			res.Merge(zr)
@@ -561,6 +564,9 @@ func init() {
 			g := goproto.Run(def, core.Pkgs("./optimize"))
 			g.Floor("go_statements", 3)
 			res.Merge(g)
+			mp := initx.RunMaskPair(def, core.Pkgs("./optimize/..."))
+			mp.Floor("mask_test_and_set_arms", 4)
+			res.Merge(mp)
 			al := aliasx.Run(def, core.Pkgs("./optimize/..."))
 			al.Floor("state_slice_field_assignments", 15)
 			res.Merge(al)
@@ -775,6 +781,10 @@ func dump(argv []string) {
 		res = worksize.RunCallee(def, core.Pkgs(argv[1:]...))
 	case "revive":
 		res = decode.RunRevive(def, core.Pkgs(argv[1:]...))
+	case "maskpair":
+		res = initx.RunMaskPair(def, core.Pkgs(argv[1:]...))
+	case "selfguard":
+		res = matargs.RunSelfGuard(def)
 	case "betascale":
 		res = flagx.RunBetaScale(def, core.Pkgs(argv[1:]...))
 	case "guardop":
